@@ -364,7 +364,12 @@ ARGS_LOOP:
 
 				if len(optionMatches) == 0 {
 					if currentProgramNode.requireOrder {
-						storeRemainingAsText(iterator, currentProgramNode)
+						// A bundled option before the unknown one might have consumed its argument and moved the iterator,
+						// hand over the CLI argument itself and whatever hasn't been consumed.
+						currentProgramNode.ChildText = append(currentProgramNode.ChildText, cliArg)
+						for iterator.Next() {
+							currentProgramNode.ChildText = append(currentProgramNode.ChildText, iterator.Value())
+						}
 						break ARGS_LOOP
 					}
 					// TODO: This shouldn't append new children but update existing ones and isOption needs to be able to check if the option expects a follow up argument.
